@@ -366,6 +366,24 @@ for d, tier, to in [(2, "quick", 900), (3, "thorough", 1200), (1, "thorough", 30
       mutant=dict(file=FLIPS, old="            *tds = tds_snapshot.clone();\n            let retry_seed_cells = None;", new="            let retry_seed_cells = None;",
                   desc="snapshot restore before attempt 2 deleted") if d == 2 else None)
 
+_SL_GUARD = dict(file=FLIPS, fn_anchor=r"fn apply_bistellar_flip_with_k<", free_fn=True, name="verif_slice_inserted_simplex_guard",
+                 params="tds: &Tds<K::Scalar, U, V, D>, k_move: usize, removed_face_vertices: &[VertexKey], inserted_face_vertices: &[VertexKey], removed_cells: &CellKeyBuffer",
+                 ret="Result<(), FlipError>", stmts=[dict(block=r"if k_move >= 2\s*&& k_move < D\s*&& let Some\(existing_cell\) =")], result="Ok(())")
+for _nm, _har, _obl in (("kept", "inserted_simplex_guard_contract", ["setup", "existing-simplex-refused", "witness"]),
+                        ("removed", "inserted_simplex_guard_removed_contract", ["setup", "removed-cells-do-not-count"])):
+    K("flip.inserted_simplex_guard." + _nm, ["C07"], FLIPS, "flips_guard.rs", _har, "K-slice",
+      [dict(file=FLIPS, name="apply_bistellar_flip_with_k (K-slice: the inserted-simplex legality guard)", anchor=r"fn apply_bistellar_flip_with_k<"), fn(FLIPS, "find_cell_containing_simplex")],
+      slices=[_SL_GUARD], extra_attach=[("src/core/cell.rs", "cell_helper.rs"), (TDS, "tds_helper.rs")], timeout=1500, no_playback=True,
+      bounded="D = 3, one stored cell {1,2,3,4}, inserted simplex {1,2}, removed face {3,5,6}; k_move in 1..=4",
+      assumed=["K-slice: the `if k_move >= 2 && k_move < D && let Some(existing_cell) = .. { .. }` statement of apply_bistellar_flip_with_k, verbatim; find_cell_containing_simplex is real code; "
+               "Tds::find_cells_containing_vertex_by_key (stub): the star of a vertex in THIS Tds (one stored cell); repair_trace_enabled / env::var_os / format! stubbed"],
+      obligations=_obl,
+      claim="legality guard of every bistellar move with 2 <= k < D: the move is refused iff its inserted simplex already lies in a cell the move does not remove "
+            "(also when that cell shares vertices with the removed face); cells the move removes do not count",
+      mutant=dict(file=FLIPS, old="        if removed_cells.contains(&cell_key) {\n            continue;\n        }\n\n        let Some(cell) = tds.get_cell(cell_key) else {",
+                  new="        let Some(cell) = tds.get_cell(cell_key) else {", desc="cells removed by the move count as witnesses") if _nm == "removed" else
+             dict(file=FLIPS, old="    if k_move >= 2\n        && k_move < D\n        && let Some(existing_cell) =", new="    if k_move > 2\n        && k_move < D\n        && let Some(existing_cell) =", desc="guard skipped for k = 2"))
+
 # ======================================================================================
 # delaunay_triangulation.rs : removal, Edit-API index coherence, repair gate, Level-4 plumbing
 # ======================================================================================
@@ -451,8 +469,8 @@ for d, tier in [(2, "quick"), (3, "thorough")]:
       assumed=["slice::sort_by is a comparator-respecting permutation (std contract, not verified)"],
       claim=f"Point<f64,{d}>::partial_cmp for ALL f64 triples: total, lexicographic under ordered-float semantics, antisymmetric, transitive; Vertex comparison/equality depend on coordinates only "
             "=> for distinct coordinates the sort key of the ordering strategies does not depend on the caller's order",
-      mutant=dict(file=VTX, old="        self.point.partial_cmp(&other.point)\n", new="        (self.point, self.uuid).partial_cmp(&(other.point, other.uuid))\n",
-                  desc="vertex ordering starts to depend on the UUID") if d == 2 else None)
+      mutant=dict(file=VTX, old="        self.point.partial_cmp(&other.point)\n", new="        other.point.partial_cmp(&self.point)\n",
+                  desc="vertex ordering reversed with respect to the point ordering") if d == 2 else None)
 for d, tier in [(2, "quick"), (3, "thorough"), (5, "thorough")]:
     K(f"valid.vertex.d{d}", ["C05", "C19", "C02"], VTX, "vertex.rs", f"vertex_valid_d{d}", "K-full",
       [fn(VTX, "is_valid", anchor=r"pub fn is_valid\(self\) -> Result<\(\), VertexValidationError>"),
@@ -518,8 +536,8 @@ for d, unw, tier in [(2, 34, "thorough"), (3, 23, "quick"), (4, 18, "thorough"),
     K(f"morton.d{d}", ["C17", "C14"], DT, "dt_order.rs", f"morton_d{d}", "K-full", [fn(DT, "morton_code"), fn(DT, "morton_bits_per_coord")],
       tier=tier, timeout=1200, obligations=["morton-bits", "morton-injective"],
       claim=f"morton_code::<{d}> is injective on all {d}-tuples of (64/{d})-bit coordinates; bits per coordinate = 64/D",
-      mutant=dict(file=DT, old="            let b = (q >> bit) & 1;\n            code = (code << 1) | b;", new="            let b = (q >> bit) & 1;\n            code = (code << 1) ^ b ^ (code & 1);",
-                  desc="Morton interleave mixes neighbouring bits") if d == 3 else None)
+      mutant=dict(file=DT, old="            let b = (q >> bit) & 1;\n            code = (code << 1) | b;", new="            let b = (q >> (bit | 1)) & 1;\n            code = (code << 1) | b;",
+                  desc="Morton interleave reads every odd bit twice (even bits lost)") if d == 3 else None)
 K("dedup.quantized_fallback", ["C17"], DT, "dt_order.rs", "quantized_fallback_contract", "K-callee",
   [fn(DT, "dedup_vertices_epsilon_quantized")], timeout=1200, no_playback=True,
   bounded="3 input vertices; the first vertex is the one that cannot be bucketed (bucket-map insertions do not fit in CBMC)",
@@ -639,8 +657,8 @@ for d, wb, tier in [(3, "ball", "thorough"), (3, "closed", "thorough"), (2, "bal
       bounded="facet map with a single facet: " + ("a boundary facet" if wb == "ball" else "an interior facet") + " (concrete key)",
       obligations=["chi-reported", "empty", "single"] + (["ball"] if wb == "ball" else ["sphere"]),
       claim="classification + expected chi of the Level-3 Euler check: >= 1 cell with a boundary facet => Ball/SingleSimplex held to chi = 1; closed => 1 + (-1)^D; computed chi reported unchanged",
-      mutant=dict(file=TOPOV, old="    } else if facet_to_cells.values().any(|cells| cells.len() == 1) {", new="    } else if facet_to_cells.values().all(|cells| cells.len() == 1) {",
-                  desc="ball classification requires ALL facets to be boundary facets") if (d, wb) == (3, "ball") else None)
+      mutant=dict(file=TOPOV, old="    } else if facet_to_cells.values().any(|cells| cells.len() == 1) {", new="    } else if facet_to_cells.values().any(|cells| cells.len() == 2) {",
+                  desc="ball classification looks for an interior facet instead of a boundary facet") if (d, wb) == (3, "ball") else None)
 
 BUILDER = "src/core/builder.rs"
 K("builder.canonicalize_vertices", ["C16"], BUILDER, "builder.rs", "canonicalize_vertices_contract", "K-callee",
@@ -746,24 +764,34 @@ K("tri.orientation_decision", ["C05"], TRI, "tri_slices.rs", "orientation_decisi
 _PER_FN = r"fn build_periodic<K, V, M>\("
 _SL_PERT = dict(file=BUILDER, fn_anchor=_PER_FN, name="verif_slice_perturb_units", params="canon_idx: usize, axis: usize", ret="i64",
                 stmts=[r"let perturb_units = \|canon_idx: usize, axis: usize\| -> i64 \{.*?\n        \};"], result="perturb_units(canon_idx, axis)")
-_SL_SNAP = dict(file=BUILDER, fn_anchor=_PER_FN, name="verif_slice_periodic_snap",
-                params="domain: [f64; D], orig_coords: &[T; D], canon_idx: usize, perturb_units: &dyn Fn(usize, usize) -> i64", ret="[f64; D]",
-                stmts=[r"let mut coords = \[0_f64; D\];", dict(block=r"for i in 0\.\.D \{\s*let domain_i = domain\[i\];")], result="coords")
+_SL_SNAP_F = dict(file=BUILDER, fn_anchor=_PER_FN, name="verif_slice_periodic_snap_front", params="orig: f64, domain_i: f64", ret="i64",
+                  stmts=[r"let normalized = [^;]*;", r"let u = \(normalized[^;]*;"], result="u")
+_SL_SNAP_C = dict(file=BUILDER, fn_anchor=_PER_FN, name="verif_slice_periodic_snap_clamp", params="u: i64, canon_idx: usize, i: usize, perturb_units: &dyn Fn(usize, usize) -> i64", ret="f64",
+                  stmts=[r"let min_off = [^;]*;", r"let max_off = [^;]*;", r"let off = [^;]*;", r"let adjusted_u = [^;]*;"], result="adjusted_u")
+_SL_SNAP_B = dict(file=BUILDER, fn_anchor=_PER_FN, name="verif_slice_periodic_snap_back", params="adjusted_u: f64, domain_i: f64, i: usize, mut coords: [f64; D]", ret="[f64; D]",
+                  stmts=[r"\bcoords\[i\] = [^;]*;"], result="coords")
+_SL_PERIODIC = [_SL_PERT, _SL_SNAP_F, _SL_SNAP_C, _SL_SNAP_B]
 K("builder.perturb_range", ["C16", "C19"], BUILDER, "builder_periodic.rs", "perturb_units_range_contract", "K-slice",
   [dict(file=BUILDER, name="DelaunayTriangulationBuilder::build_periodic (K-slice: the perturb_units closure)", anchor=_PER_FN)],
-  slices=[_SL_PERT, _SL_SNAP], timeout=900, obligations=["constant", "perturbation-range"],
+  slices=_SL_PERIODIC, timeout=900, obligations=["constant", "perturbation-range"],
   assumed=["K-slice: the `let perturb_units = |..| {..};` statement of build_periodic, verbatim, called with any (index, axis); everything else in build_periodic dropped"],
   claim="the per-(vertex, axis) hash perturbation of periodic construction is within +-MAX_OFFSET_UNITS grid units for EVERY index and axis (no `expect` fires)",
   mutant=dict(file=BUILDER, old="            i64::try_from(h % span).expect(\"residue fits in i64\") - MAX_OFFSET_UNITS\n        };", new="            i64::try_from(h % span).expect(\"residue fits in i64\") - MAX_OFFSET_UNITS + 1\n        };",
               desc="perturbation range shifted by one unit"))
-K("builder.periodic_snap", ["C16", "C19"], BUILDER, "builder_periodic.rs", "periodic_snap_contract", "K-slice",
-  [dict(file=BUILDER, name="DelaunayTriangulationBuilder::build_periodic (K-slice: per-axis grid snap + clamped perturbation)", anchor=_PER_FN)],
-  slices=[_SL_PERT, _SL_SNAP], timeout=1500, obligations=["snapped-nonnegative", "snapped-below-period"],
-  assumed=["K-slice: `let mut coords = ..;` and the `for i in 0..D { .. }` statement of the canonical_f64 closure of build_periodic, verbatim, for D = 1 (axes are independent); "
-           "perturb_units passed as ANY function with values in +-MAX_OFFSET_UNITS (proved by builder.perturb_range); preconditions: L normal and > 0, 0 <= x < L (Phase 1 canonicalisation, units builder.canonicalize_* / toroidal.*); "
-           "everything else in build_periodic (image expansion, the Delaunay build, the quotient) dropped"],
-  claim="periodic (image-point) construction: the snapped and perturbed canonical coordinate of every vertex stays in the half-open period [0, L) for every L, x and perturbation; none of the `expect`s fires",
-  mutant=dict(file=BUILDER, old="let max_off = (TWO_POW_52_I64 - 1 - u).min(MAX_OFFSET_UNITS);", new="let max_off = (TWO_POW_52_I64 - u).min(MAX_OFFSET_UNITS);", desc="upper clamp of the perturbation off by one (stored coordinate can be exactly L)"))
+for _nm, _har, _obl, _what, _mut in (
+        ("front", "periodic_snap_front_contract", ["constant", "grid-index-range"], "statements `let normalized = ..;` `let u = ..;`: the grid index is in [0, 2^52 - 1] for every value of the quotient x / L",
+         dict(file=BUILDER, old="let normalized = (orig / domain_i).clamp(0.0, 1.0 - f64::EPSILON);", new="let normalized = (orig / domain_i).clamp(0.0, 1.0);", desc="normalised coordinate may reach 1.0 (grid index 2^52)")),
+        ("clamp", "periodic_snap_clamp_contract", ["perturbed-index-range", "perturbation-bounded"], "statements `let min_off`, `let max_off`, `let off`, `let adjusted_u`: the perturbed grid index stays in [0, 2^52 - 1] for every index and every perturbation in range",
+         dict(file=BUILDER, old="let max_off = (TWO_POW_52_I64 - 1 - u).min(MAX_OFFSET_UNITS);", new="let max_off = (TWO_POW_52_I64 - u).min(MAX_OFFSET_UNITS);", desc="upper clamp of the perturbation off by one (stored coordinate can be exactly L)")),
+        ("back", "periodic_snap_back_contract", ["stored-nonnegative", "stored-below-period"], "statement `coords[i] = ..;`: ((2^52 - 1) / 2^52) * L is in [0, L) for the LAST grid cell and every normal L > 0 "
+         "(smaller indices: by monotonicity of IEEE multiplication in one operand, NOT proved - the query over all (a, L) ran into the 25 min cap)", None),
+        ("back_unit", "periodic_snap_back_unit_contract", ["stored-in-unit-box"], "statement `coords[i] = ..;`: for L = 1 and every grid index a <= 2^52 - 1 the stored coordinate is in [0, 1)", None)):
+    K("builder.periodic_snap." + _nm, ["C16", "C19"], BUILDER, "builder_periodic.rs", _har, "K-slice",
+      [dict(file=BUILDER, name="DelaunayTriangulationBuilder::build_periodic (K-slice: per-axis grid snap, " + _nm + ")", anchor=_PER_FN)],
+      slices=_SL_PERIODIC, timeout=1500, obligations=_obl,
+      assumed=["K-slice of the canonical_f64 closure of build_periodic: " + _what + "; perturb_units passed as ANY function with values in +-MAX_OFFSET_UNITS (proved by builder.perturb_range); "
+               "the three steps front / clamp / back compose by reading (u and adjusted_u are the only values passed on); everything else in build_periodic (image expansion, the Delaunay build, the quotient) dropped"],
+      claim="periodic (image-point) construction, per-axis snap (" + _nm + "): " + _what, mutant=_mut)
 K("builder.canonicalize_one", ["C16"], BUILDER, "builder.rs", "canonicalize_one_vertex_contract", "K-callee",
   [fn(BUILDER, "canonicalize_vertices")], tier="thorough", timeout=3600, no_playback=True,
   assumed=["GlobalTopologyModel::canonicalize_point_in_place replaced by an arbitrary model with an arbitrary periodic domain (rewrites or refuses); format! stubbed"],
@@ -901,12 +929,14 @@ for _u in UNITS:
 # ======================================================================================
 _SL_FAN = dict(file=TRI, fn_anchor=r"pub\(crate\) fn remove_vertex\(\s*&mut self,\s*vertex: &Vertex<K::Scalar, U, D>,\s*\) -> Result<usize, TdsMutationError>",
                name="verif_slice_fan_tail", params="&mut self, mut cells_removed: usize, new_cells: CellKeyBuffer, vertex: &Vertex<K::Scalar, U, D>",
-               ret="Result<usize, TdsMutationError>", stmts=[dict(rest_of_block_after=r"let mut cells_removed = self\.tds\.remove_cells_by_keys\(&cells_to_remove\)")], result="")
+               ret="Result<usize, TdsMutationError>", stmts=[dict(rest_of_block_after=r"let mut cells_removed = self\.tds\.remove_cells_by_keys\(&cells_to_remove\)",
+                           abstract=[dict(open=r"if let Some\(issues\) = self\.detect_local_facet_issues\(&new_cells\)\? \{", body="let _ = (&issues, &mut cells_removed);")])], result="")
 K("tri.fan_tail", ["C06", "C03"], TRI, "tri_fan.rs", "fan_tail_contract", "K-slice",
   [dict(file=TRI, name="Triangulation::remove_vertex (K-slice: retriangulation closure after the fan replaced the star)", anchor=_SL_FAN["fn_anchor"])],
-  slices=[_SL_FAN], tier="thorough", timeout=7200, mem_gb=34,
+  slices=[_SL_FAN], tier="quick", timeout=2400, mem_gb=20,
   assumed=["K-slice: the tail of the retriangulation closure after `let mut cells_removed = ..;`; the fan construction, neighbour wiring and cell removal before it are dropped; "
-           "all seven callees stubbed (any verdict, no state change); the over-shared-facet repair branch is not exercised (its map is a hash map)"],
+           "the body of the over-shared-facet repair branch (`if let Some(issues) = self.detect_local_facet_issues(..)? { .. }`) is an ABSTRACTED region (its map is a hash map; with it the query did not finish in 2 h); "
+           "all seven callees stubbed (any verdict, no state change); canonicalize_global_orientation_sign's Err is not exercised (InsertionError drop glue)"],
   obligations=["fan-finalisation-conjunction", "fan-count", "fan-all-consulted"],
   claim="Triangulation::remove_vertex, fan path: success <=> facet-issue detection, orientation normalisation, sign canonicalisation, GLOBAL geometric-orientation validation, incidence rebuild and vertex removal all succeed; any failure => Err (snapshot restored by the caller of the closure)",
   mutant=dict(file=TRI, old="            self.validate_geometric_cell_orientation().map_err(|e| {\n                TdsValidationError::InconsistentDataStructure {\n                    message: format!(\n                        \"Geometric orientation validation failed after fan retriangulation: {e}\",\n                    ),\n                }\n            })?;\n",
@@ -927,6 +957,26 @@ K("tri.fan_restore", ["C03", "C06"], TRI, "tri_restore.rs", "fan_restore_contrac
   claim="fan path of Triangulation::remove_vertex: whatever the destructive retriangulation did before failing, Err leaves the Tds exactly as it was (snapshot restored); Ok(n) is the retriangulation's result",
   mutant=dict(file=TRI, old="            Err(error) => {\n                self.tds = tds_snapshot;\n                Err(error)\n            }", new="            Err(error) => {\n                drop(tds_snapshot);\n                Err(error)\n            }",
               desc="snapshot restore after a failed fan retriangulation deleted"))
+
+_SL_TXN = dict(file=TRI, fn_anchor=r"fn insert_transactional\(", name="verif_slice_txn_attempt",
+               params="&mut self, current_vertex: Vertex<K::Scalar, U, D>, conflict_cells: Option<&CellKeyBuffer>, hint: Option<CellKey>, attempt: usize, max_perturbation_attempts: usize, "
+                      "mut stats: InsertionStatistics, mut index: Option<&mut HashGridIndex<K::Scalar, D>>, mut last_retryable_error: Option<InsertionError>",
+               ret="Result<(InsertionOutcome, InsertionStatistics), InsertionError>", where="where K::Scalar: CoordinateScalar",
+               stmts=[dict(rest_of_block_after=r"if let Some\(error\) = self\.duplicate_coordinates_error\(", anchor_is_block=True, wrap_loop=True)],
+               result="core::mem::forget(last_retryable_error);\n        Err(InsertionError::NonManifoldTopology { facet_hash: self::verif_kani_tri_txn::FELL_THROUGH, cell_count: 0 })")
+for _nm, _obl in (("ok", ["attempted", "ok-inserted"]), ("dup", ["attempted", "dup-skipped", "failed-attempt-restores"]),
+                  ("degenerate", ["attempted", "retry-while-budget", "degenerate-skipped", "failed-attempt-restores"]), ("structural", ["attempted", "structural-err", "failed-attempt-restores"])):
+    K("tri.txn_attempt." + _nm, ["C02", "C03"], TRI, "tri_txn.rs", "txn_attempt_" + _nm, "K-slice",
+      [dict(file=TRI, name="Triangulation::insert_transactional (K-slice: one attempt of the retry loop after the duplicate check)", anchor=r"fn insert_transactional\(")],
+      slices=[_SL_TXN], timeout=2400, mem_gb=20,
+      assumed=["K-slice: the remainder of the retry-loop body of insert_transactional after the duplicate-coordinate check (snapshot, attempt, outcome handling), verbatim, run once; "
+               "perturbation, duplicate check and the code before the loop are dropped; glue: falling out of the loop body (= next attempt) returns a marker error; "
+               "try_insert_with_topology_safety_net (stub): edits the Tds in ANY way, then reports the instance's outcome class (" + _nm + ": one concrete InsertionError variant - symbolic variants do not fit in CBMC); format! stubbed; no duplicate index"],
+      obligations=_obl,
+      claim="insert_transactional, one attempt, outcome class `" + _nm + "`: whatever the failed attempt did to the Tds, the snapshot is restored before the vertex is skipped, retried or refused; "
+            "Ok => Inserted; duplicate => Skipped; retryable => next attempt iff budget remains; structural => Err",
+      mutant=dict(file=TRI, old="                    // Any error - rollback to snapshot\n                    self.tds = tds_snapshot;\n", new="                    // Any error - rollback to snapshot\n                    if e.is_retryable() {\n                        self.tds = tds_snapshot;\n                    }\n",
+                  desc="snapshot restored only for retryable failures") if _nm == "structural" else None)
 
 K("dt.level4_report", ["C04", "C05"], DT, "dt.rs", "level4_report_contract", "K-callee",
   [fn(DT, "validation_report", anchor=r"pub fn validation_report\(&self\) -> Result<\(\), TriangulationValidationReport>")], tier="thorough", timeout=5400,
@@ -1001,7 +1051,7 @@ K("dt.reseeded_index", ["C09"], DT, "dt_index.rs", "reseeded_index_contract", "K
 # command: they do not finish within 45 min here (or were never seen to finish).
 # They are listed in DESIGN.md 8.4 with what was observed.
 # ======================================================================================
-_MANUAL = {"construct.retry_gate", "tri.fan_tail", "tri.validation_report", "dt.level4_report", "order.seed", "facet_key.order_free", "dedup.n4",
+_MANUAL = {"construct.retry_gate", "tri.validation_report", "dt.level4_report", "order.seed", "facet_key.order_free", "dedup.n4",
            "tds.remove_cells_bump.k0", "tds.remove_cells_bump.k1", "tds.remove_cells_bump.k2",
            "tri.adjacent_cells.n2_nohint", "tri.adjacent_cells.n2_hint", "tri.adjacent_cells.n0_absent",
            "hull.stale.is_point_outside", "hull.stale.find_visible", "hull.stale.find_nearest", "hull.stale.facet_visible",
